@@ -19,8 +19,8 @@ CanonOf(vs) == [i \in 1..Len(vs) |-> vs[i].c]
 
 RowClosingOps == {"end_row", "write_row", "finish", "finish_one", "finish_error", "drop"}
 
-\* a refused write_col that the shim handles instead of propagating it with `?` ("cont" in the scenario)
-Handled(x) == x.res = "err" /\ x.op.op = "write_col" /\ "cont" \in DOMAIN x.op /\ x.op.cont
+\* a refused write_col / end_row that the shim handles instead of propagating it with `?` ("cont" in the scenario)
+Handled(x) == x.res = "err" /\ x.op.op \in {"write_col", "end_row"} /\ "cont" \in DOMAIN x.op /\ x.op.cont
 
 \* ---- was a refusal justified? ----
 \* Refusals come back as InvalidData / Other; other kinds are connection errors and are judged elsewhere.
